@@ -11,7 +11,8 @@ convert_scf_to_cf, loop_invariant_code_motion, control_flow_hoist, lower_affine,
   undefined behaviour, as in `Sem.lean`.  `forRun` is the operational reading (`Sem.runFor`).
 * `foldStep` models one step of `ScfForLoopRangeFolding` (with the fix: a multiplication is folded
   only for a constant factor > 0), `flattenDecide` the decision and bounds of
-  `FlattenNestedLoopsPattern` *as the code is* (known finding: not sound in general), `pyRange` the
+  `FlattenNestedLoopsPattern` (with the fixes: the outer range is rounded up to a whole number of
+  outer steps, the inner trip count is a clamped ceiling), `pyRange` the
   Python `range` used by `UnrollLoopPattern`, `cfStep` the header/body/exit CFG built by
   `ForLowering`.
 No Mathlib, no proofs here.
@@ -63,28 +64,53 @@ def foldStep (op : FoldOp) (lb ub step : Int) (c : Option Int) (v : Int) : Optio
     | some k => if 0 < k then some (lb * k, ub * k, step * k) else none
     | none => none
 
-/-! ## flattening (`scf_for_loop_flatten.py`), as the code is -/
+/-! ## flattening (`scf_for_loop_flatten.py`) -/
+
+/-- the upper bound `_whole_steps_ub` hands out for the outer loop: `keep` = the loop's own bound,
+`const v` = a new `arith.constant`, `arith` = `lb + ceildivsi(ub - lb, S) * S` emitted as
+`subi`/`ceildivsi`/`muli`/`addi` (a bound that is not constant) -/
+inductive NewUb where
+  | keep
+  | const (v : Int)
+  | arith
+deriving DecidableEq, Repr
+
+/-- `_whole_steps_ub`; `olb`/`oub = none` = bound not constant. Python `%` is the floor remainder. -/
+def wholeStepsUb (olb oub : Option Int) (S : Int) : NewUb :=
+  match olb, oub with
+  | some l, some u => if u ≤ l ∨ Int.fmod (l - u) S = 0 then .keep else .const (u + Int.fmod (l - u) S)
+  | _, _ => .arith
+
+/-- `arith.ceildivsi` on unbounded integers (as in `Sem.lean`) -/
+def ceilDiv (a b : Int) : Int := -(Int.fdiv (-a) b)
+
+/-- run-time value of the new bound (`lb`, `ub` = the values of the outer bounds) -/
+def NewUb.val (lb ub S : Int) : NewUb → Int
+  | .keep => ub
+  | .const v => v
+  | .arith => lb + ceilDiv (ub - lb) S * S
 
 inductive Flat where
   | no
-  | fuse (step : Int)                 -- new loop: outer lb, outer ub, inner step
-  | prod (factor : Int)               -- new loop: 0 .. ub * factor step outer step
-  | raise                             -- ZeroDivisionError (inner step 0)
+  | fuse (step : Int) (ub : NewUb)     -- new loop: outer lb, new ub, inner step
+  | prod (factor : Int) (ub : NewUb)   -- new loop: 0 .. new ub * factor step outer step
+  | raise                              -- ZeroDivisionError (inner step 0)
 deriving DecidableEq, Repr
 
 /-- decision of `FlattenNestedLoopsPattern` for constant inner bounds / outer step;
 `used` = the induction variables are used (by exactly one common `arith.addi`);
-`olb = none` = outer lower bound not constant. Python `%` and `//` are floor operations. -/
-def flattenDecide (used : Bool) (olb : Option Int) (S il iu s : Int) : Flat :=
-  if used then
+`olb`/`oub = none` = outer bound not constant. Python `%` and `//` are floor operations. -/
+def flattenDecide (used : Bool) (olb oub : Option Int) (S il iu s : Int) : Flat :=
+  if S ≤ 0 then .no
+  else if used then
     if il ≠ 0 then .no
     else if iu ≠ S then .no
     else if s = 0 then .raise
     else if Int.fmod S s ≠ 0 then .no
-    else .fuse s
+    else .fuse s (wholeStepsUb olb oub S)
   else
     match olb with
-    | some 0 => if s = 0 then .raise else .prod (Int.fdiv (iu - il) s)
+    | some 0 => if s = 0 then .raise else .prod (max 0 (-(Int.fdiv (il - iu) s))) (wholeStepsUb olb oub S)
     | _ => .no
 
 /-! ## unrolling (`scf_for_loop_unroll.py`): Python `range(lb, ub, step)` -/
@@ -229,6 +255,11 @@ def showInts (l : List Int) : String := ",".intercalate (l.map toString)
 def optInt (s : String) : Option (Option Int) :=
   if s = "sym" then some none else s.toInt?.map some
 
+def showUb : NewUb → String
+  | .keep => "keep"
+  | .const v => s!"const {v}"
+  | .arith => "arith"
+
 /-- the loop body used for executable comparisons: log the induction value -/
 def logBody (i : Int) (s : List Int) : Option (List Int) := some (s ++ [i])
 
@@ -274,15 +305,15 @@ def lineStep (_ : Unit) (line : String) : Unit × String :=
         | some (l, u, s) => if kc.isSome then s!"fold {l} {u} {s}" else "fold sym"
         | none => "no")
     | _, _, _, _, _ => ((), "bad-op")
-  | ["flatten", used, olb, s1, il, iu, s2] =>
-    match optInt olb, s1.toInt?, il.toInt?, iu.toInt?, s2.toInt? with
-    | some ol, some S, some l, some u, some s =>
-      ((), match flattenDecide (used = "used") ol S l u s with
+  | ["flatten", used, olb, oub, s1, il, iu, s2] =>
+    match optInt olb, optInt oub, s1.toInt?, il.toInt?, iu.toInt?, s2.toInt? with
+    | some ol, some ou, some S, some l, some u, some s =>
+      ((), match flattenDecide (used = "used") ol ou S l u s with
         | .no => "no"
         | .raise => "raise ZeroDivisionError"
-        | .fuse st => s!"fuse {st}"
-        | .prod f => s!"prod {f}")
-    | _, _, _, _, _ => ((), "bad-op")
+        | .fuse st b => s!"fuse {st} {showUb b}"
+        | .prod f b => s!"prod {f} {showUb b}")
+    | _, _, _, _, _, _ => ((), "bad-op")
   | _ => ((), "bad-op")
 
 end Xdsl.Loops
